@@ -153,6 +153,21 @@ def parse_callee(raw):
 
 
 class Program:
+    def alloc_statics(s):
+        """alloc id -> name of the static it backs (from the allocation footers of the MIR dump)"""
+        if getattr(s, '_alloc_statics', None) is None:
+            d = {}
+            try:
+                with open(s.mir_path, errors='replace') as f:
+                    for line in f:
+                        if line.startswith('alloc'):
+                            m = re.match(r'^alloc(\d+) \(static: (.+?), size: \d+', line)
+                            if m: d[int(m.group(1))] = strip_lifetimes(m.group(2))
+            except (OSError, AttributeError):
+                pass
+            s._alloc_statics = d
+        return s._alloc_statics
+
     def __init__(s, bodies, repo):
         s.repo = repo
         s.src = SrcIndex(repo)
